@@ -98,8 +98,44 @@ def _typemix(rng):
     return script, eng.structures(eng.mkds("DS_1", comps)), {"DS_1": (comps, rows)}
 
 
+def _viral_chain(rng):
+    """clause chains that create, overwrite, keep, drop and rename viral attributes and attributes (a propagation rule is declared):
+    what the result's structure lists must be in the returned data"""
+    from vf import eng
+    comps = [("Id_1", "Integer", "Identifier", False), ("Id_2", "String", "Identifier", False), ("Me_1", "Number", "Measure", True), ("Me_2", "Number", "Measure", True),
+             ("At_1", "String", "Attribute", True), ("VAt_1", "String", "Viral Attribute", True)]
+    rows = [[i, s, rng.choice([1.5, 2.0, None, -3.0]), rng.choice([0.5, 7.0, None]), rng.choice(["x", "y", None]), rng.choice(["A", "B", None])] for i in (1, 2, 3) for s in ("a", "b") if rng.random() < 0.85]
+    rule = 'define viral propagation R1 (variable VAt_1) is when "A" then "A"; when "B" then "B"; else "Z" end viral propagation; ' \
+           'define viral propagation R2 (variable VAt_2) is when "A" and "B" then "C"; when "A" then "A"; else "N" end viral propagation;'
+    steps = ['[calc viral attribute VAt_2 := "A"]', '[calc viral attribute VAt_2 := At_1]', '[calc attribute At_2 := Me_1 > 1]', "[keep Me_1]", "[keep Me_2, Me_1]", "[drop Me_2]",
+             "[rename Me_1 to Me_9]", "[filter Me_1 > 0]", "[calc Me_3 := Me_1 + Me_2]", '[calc viral attribute VAt_1 := "B"]', "[drop At_1]", "[keep Me_1, At_1]", '[calc identifier Id_3 := Id_1 + 10]',
+             "[sub Id_2 = \"a\"]"]
+    stmts = []
+    for j in range(rng.randint(1, 3)):
+        chain = "".join(rng.sample(steps, rng.randint(2, 4)))
+        src = rng.choice(["DS_1", "DS_1", "(DS_1 * 2)", "abs(DS_1)", "inner_join(DS_1 as a, DS_1[rename Me_1 to Me_7, Me_2 to Me_8][drop At_1] as b)"])
+        stmts.append(f"DS_v{j} <- {src}{chain};")
+    return rule + "\n" + "\n".join(stmts), eng.structures(eng.mkds("DS_1", comps)), {"DS_1": (comps, rows)}
+
+
+def _validation(rng):
+    """check / check_datapoint / check_hierarchy whose operands do not line up (filtered imbalance operand, non-nullable measures)"""
+    from vf import eng
+    c1 = [("Id_1", "Integer", "Identifier", False), ("Id_2", "String", "Identifier", False), ("Me_1", "Number", "Measure", True)]
+    c2 = [("Id_1", "Integer", "Identifier", False), ("Id_2", "String", "Identifier", False), ("Me_1", "Number", "Measure", False)]
+    r1 = [[i, s, rng.choice([1.0, -2.0, 5.5, None, 0.0])] for i in (1, 2, 3, 4) for s in ("A", "B", "C") if rng.random() < 0.9]
+    r2 = [[i, s, rng.choice([1.0, 3.0, -1.0, 10.0])] for i in (1, 2, 3, 4) for s in ("A", "B", "C") if rng.random() < 0.7]
+    k = rng.choice([0, 1, 2])
+    stmts = [f"V1 <- check(DS_1 > {k} errorcode \"e\" errorlevel 1 imbalance DS_2[filter Id_1 > {k}]);", f"V2 <- check(DS_1 >= DS_2 imbalance DS_1 - DS_2 invalid);",
+             f"V3 <- check(DS_1 > {k} imbalance DS_2 all);", f"V4 <- check(DS_2 > {k} imbalance DS_1[filter Me_1 > 0]);",
+             "define datapoint ruleset dpr (variable Me_1) is r1: Me_1 > 0 errorcode \"neg\" errorlevel 2; r2: when Me_1 > 1 then Me_1 < 5 end datapoint ruleset; V5 <- check_datapoint(DS_2, dpr all); V6 <- check_datapoint(DS_1, dpr all_measures);",
+             "define hierarchical ruleset hr (variable rule Id_2) is A = B + C errorcode \"h\"; B >= C end hierarchical ruleset; V7 <- check_hierarchy(DS_2, hr rule Id_2 partial_null all); V8 <- hierarchy(DS_2, hr rule Id_2 always_zero all);",
+             "V9 <- exists_in(DS_1, DS_2[filter Id_1 > 1], all); V10 <- lag(DS_2, 1 over (partition by Id_2 order by Id_1)); V11 <- DS_2[aggr Me_9 := sum(Me_1)];"]
+    return "\n".join(rng.sample(stmts, rng.randint(2, 4))), eng.structures(eng.mkds("DS_1", c1), eng.mkds("DS_2", c2)), {"DS_1": (c1, r1), "DS_2": (c2, r2)}
+
+
 FAMILIES = [("aggregation", _c03), ("join", _c04), ("analytic", _c06), ("clauses", _c02), ("multi-join-script", _joins), ("tp-spellings", _tp_spellings),
-            ("type-mix", _typemix)]
+            ("type-mix", _typemix), ("viral-chain", _viral_chain), ("validation", _validation)]
 
 
 def generated(rng, n):
